@@ -3,7 +3,7 @@ import json
 import os
 import re
 
-from . import common, ip_checks, jun_checks, iptext_checks, secret_checks, text_checks, cli_checks, files_checks
+from . import ip_scenarios, common, ip_checks, jun_checks, iptext_checks, secret_checks, text_checks, cli_checks, files_checks
 from .common import LEAN, VERIF, Infra
 
 TRUSTED_BASE = [
@@ -195,6 +195,12 @@ IP_ASSUME = ["the hash bit is an arbitrary function in every theorem; MD5 only a
              "ipaddress parses/prints addresses correctly; bidict behaves as modelled by put/putInv (exercised by the correspondence)"]
 
 
+# every address-mapping property runs every address scenario: each of them is a theorem about the pure map F, and any
+# input on which the implementation does not compute F takes the ground from under all of them
+IP_SCOPES = [ip_checks.core_scope, ip_checks.file_scope, ip_checks.cli_scope, ip_checks.big_history, ip_checks.text_history_scope,
+             ip_checks.process_history_scope, ip_checks.dir_history_scope, iptext_checks.long_line_scope, ip_scenarios.scenario_scope]
+
+
 def ip_prop(mod, scopes, extra_mods=()):
     return {"modules": ["Netconan.Props." + mod] + list(extra_mods), "scopes": scopes,
             "checker_cmd": "cd lean && lake build Netconan.Props.%s && lake env lean <#print axioms audit>" % mod,
@@ -229,11 +235,11 @@ def text_prop(mod, scopes):
 
 
 PROPS = {
-    "C01": ip_prop("C01", [ip_checks.core_scope, ip_checks.file_scope, ip_checks.big_history, ip_checks.text_history_scope, ip_checks.process_history_scope]),
-    "C02": ip_prop("C02", [ip_checks.core_scope, ip_checks.file_scope, ip_checks.cli_scope, ip_checks.big_history, ip_checks.process_history_scope, ip_checks.text_history_scope]),
-    "C03": ip_prop("C03", [ip_checks.core_scope, ip_checks.file_scope, ip_checks.big_history, ip_checks.process_history_scope, ip_checks.text_history_scope, ip_checks.cli_scope, ip_checks.dir_history_scope]),
-    "C04": ip_prop("C04", [ip_checks.core_scope, ip_checks.file_scope, ip_checks.cli_scope, ip_checks.big_history], ["Netconan.Props.C04Data"]),
-    "C05": ip_prop("C05", [ip_checks.mask_scope, ip_checks.core_scope, ip_checks.file_scope, ip_checks.cli_scope, iptext_checks.long_line_scope, ip_checks.big_history, ip_checks.process_history_scope]),
+    "C01": ip_prop("C01", IP_SCOPES),
+    "C02": ip_prop("C02", IP_SCOPES),
+    "C03": ip_prop("C03", IP_SCOPES),
+    "C04": ip_prop("C04", IP_SCOPES, ["Netconan.Props.C04Data"]),
+    "C05": ip_prop("C05", [ip_checks.mask_scope] + IP_SCOPES),
     "C18": {"modules": ["Netconan.Props.C18", "Netconan.Props.C18Data"], "scopes": [jun_checks.scope],
             "checker_cmd": "cd lean && lake build Netconan.Props.C18 && lake env lean <#print axioms audit>", "rule": JUN_RULE,
             "assumptions": ["FAMILY/ENCODING/EXTRA/_fixedc tables are regenerated from the live module on every run; the functions are modelled by hand and tied by correspondence"]},
@@ -246,7 +252,7 @@ PROPS = {
     "C07": {"modules": ["Netconan.Props.C07"], "scopes": [secret_checks.corr_scope, secret_checks.c07_scope],
             "checker_cmd": "cd lean && lake build Netconan.Props.C07 && lake env lean <#print axioms audit>", "rule": SECRET_RULE,
             "assumptions": SECRET_ASSUME},
-    "C08": {"modules": ["Netconan.Props.C08", "Netconan.Props.C18Data"], "scopes": [secret_checks.corr_scope, secret_checks.codec_scope, secret_checks.c08_scope, secret_checks.c08_dir_scope],
+    "C08": {"modules": ["Netconan.Props.C08", "Netconan.Props.C18Data"], "scopes": [secret_checks.corr_scope, secret_checks.codec_scope, secret_checks.c08_scope, secret_checks.c08_dir_scope, secret_checks.c08_volume_scope],
             "checker_cmd": "cd lean && lake build Netconan.Props.C08 && lake env lean <#print axioms audit>", "rule": SECRET_RULE,
             "assumptions": SECRET_ASSUME},
     "C09": {"modules": ["Netconan.Props.C09"], "scopes": [secret_checks.corr_scope, secret_checks.codec_scope, secret_checks.c09_scope],
@@ -274,5 +280,5 @@ PROPS = {
                     "input/output, compared with the Lean decision function; real runs of rejected combinations check that nothing is written; "
                     "distinct_nontrivial counts distinct encoded argument vectors",
             "assumptions": ["argparse / configargparse are abstracted by 'which source gave which value'; their parsing is exercised, not modelled"]},
-    "C17": ip_prop("C17", [ip_checks.core_scope, ip_checks.cli_scope, ip_checks.big_history]),
+    "C17": ip_prop("C17", IP_SCOPES),
 }
